@@ -3,7 +3,7 @@
 EXTENDS GraphFile, Json, IOUtils
 Cap == atoi(IOEnv.GEN_CAP)
 Spread(S, cap) == LET s == SetToSeq(S)  n == Len(s)
-                  IN IF n <= cap THEN S ELSE {s[1 + ((i * n) \div cap)] : i \in 0..(cap - 1)}
+                  IN IF n <= cap THEN S ELSE {s[1 + i * (n \div cap)] : i \in 0..(cap - 1)}    \* (i * n would overflow 32 bits)
 Good == {b \in BlockDescs : WellDefined(b)}
 Clean == {b \in Good : b.corr = "none"}
 File(bs) ==     \* bs: sequence of block descriptions
